@@ -186,6 +186,9 @@ impl ElementMap for TransformerContext {
     }
 
     fn get_element_bbox(&self, el: &SvgElement) -> Result<Option<BoundingBox>> {
+        // a `use` / `reuse` takes its bbox from the element it refers to; its own
+        // placement must be resolved as well before that can be translated.
+        el.ensure_positioned()?;
         let target_el = el.get_target_element(self)?;
         let mut el_bbox = target_el.bbox()?;
 
